@@ -1010,6 +1010,14 @@ func (m *Machine) convert(x Value, from, to types.Type) Value {
 	if isString(to) {
 		switch a := x.(type) {
 		case Slice:
+			if sl, ok := from.Underlying().(*types.Slice); ok && width(sl.Elem()) == 32 {
+				// string([]rune): every rune is encoded
+				var cells []*Term
+				for i := 0; i < a.len; i++ {
+					cells = append(cells, m.encodeRune(m.term(a.node.elems[a.off+i])).cells...)
+				}
+				return Str{cells}
+			}
 			cells := make([]*Term, a.len)
 			for i := range cells {
 				cells[i] = m.term(a.node.elems[a.off+i])
@@ -1036,7 +1044,21 @@ func (m *Machine) convert(x Value, from, to types.Type) Value {
 			return m.encodeRune(r)
 		}
 	}
-	if _, ok := to.Underlying().(*types.Slice); ok {
+	if tsl, ok := to.Underlying().(*types.Slice); ok {
+		if s, ok := x.(Str); ok && width(tsl.Elem()) == 32 {
+			// []rune(string): decoded the way the runtime does (forks on the byte classes)
+			var rs []*Term
+			for i := 0; i < len(s.cells); {
+				r, w := m.decodeRune(s.cells[i:])
+				rs = append(rs, r)
+				i += w
+			}
+			n := m.newNode(len(rs))
+			for i, r := range rs {
+				n.elems[i] = r
+			}
+			return Slice{n, 0, len(rs), len(rs)}
+		}
 		if s, ok := x.(Str); ok {
 			n := m.newNode(len(s.cells))
 			for i, c := range s.cells {
